@@ -69,10 +69,14 @@ def prove_forall(env, path, clause, goal, facts, props, extra_instances=(), hyps
     return env.ensure(clause, sym.Implies(And(*hs), goal.body(q)), props, internal=internal)
 
 
+from . import localnames
+
+
 class LoopCtx:
     def __init__(self, v, interp, frame, node, it):
         self.v, self.interp, self.frame, self.node, self.it = v, interp, frame, node, it
-        self.locals = frame.locals
+        al = localnames.aliases(frame.func) if frame.func is not None else {}
+        self.locals = localnames.AliasDict(frame.locals, al) if al else frame.locals
         self.saved = {}
 
 
@@ -138,7 +142,8 @@ class Verifier:
                 return True, interp.run_func(func, bound)
             finally:
                 self.active[func.key] = depth
-        return True, spec.apply(self, interp, func, bound)
+        al = localnames.aliases(func)
+        return True, spec.apply(self, interp, func, localnames.AliasDict(bound, al) if al else bound)
 
     # ------------------------------------------------------------------ loops
     def on_loop(self, interp, frame, node, it):
